@@ -383,6 +383,7 @@ func c20Worker(ctx *core.Ctx) *core.Result {
 			x.runOne("ASA", core.Files{Main: dev}, core.Files{Main: tgt, Info: inf}, "info", "info", fmt.Sprintf("info #%d", i))
 		}
 	}
+	c20InfoLogin(ctx, x.res)
 	return x.res
 }
 
